@@ -185,6 +185,9 @@ MODULE_FILES = {
     "walk::verif_kani": "walk_mod.rs",
     "walk::behavior::verif_kani": "walk_behavior.rs",
     "token::variance::verif_kani": "variance.rs",
+    "token::parse::verif_kani": "token_parse.rs",
+    "token::verif_kani": "token_mod.rs",
+    "diagnostics::verif_kani": "diagnostics.rs",
     "verif_kani": "lib.rs",
 }
 
